@@ -18,6 +18,8 @@ Banks == {"bk1", "bk2"}
 Methods == <<
   [cls |-> "A", name |-> "pt",   ret |-> "num",    kind |-> "double", declared |-> FALSE],
   [cls |-> "A", name |-> "eta",  ret |-> "num",    kind |-> "double", declared |-> FALSE],
+  [cls |-> "A", name |-> "a",    ret |-> "num",    kind |-> "double", declared |-> FALSE],
+  [cls |-> "A", name |-> "b",    ret |-> "num",    kind |-> "double", declared |-> FALSE],
   [cls |-> "A", name |-> "n",    ret |-> "num",    kind |-> "int",    declared |-> TRUE],
   [cls |-> "A", name |-> "m",    ret |-> "num",    kind |-> "float",  declared |-> TRUE],
   [cls |-> "A", name |-> "ok",   ret |-> "num",    kind |-> "bool",   declared |-> TRUE],
@@ -53,7 +55,8 @@ VecMethodNames == {Methods[i].name : i \in {i \in DOMAIN Methods : Methods[i].re
    documentation: MAY.                                                              *)
 RECURSIVE StripId(_)
 StripId(t) == IF t.k = "Select" /\ t.ch[2].k = "Var" /\ t.ch[2].a = t.a THEN StripId(t.ch[1]) ELSE t
-IsVecTerm(t) == LET u == StripId(t) IN u.k = "Meth" /\ u.a \in VecMethodNames
+IsVecTerm(t) == LET u == StripId(t) IN \/ (u.k = "Meth" /\ u.a \in VecMethodNames)
+                                        \/ (u.k = "UserFn" /\ FnMeaning(u.a) = "pair")
 Cells(b) == IF b.k \in {"Tuple", "List"} THEN {b.ch[i] : i \in DOMAIN b.ch}
             ELSE IF b.k = "Dict" THEN {b.ch[2 * i] : i \in 1..b.n} ELSE {b}
 RECURSIVE ElemCells(_)
@@ -143,6 +146,13 @@ MdFor(b) == [i \in 1..Len(Declared) |->
                 return_type |-> IF m.ret \in {"num", "obj"} THEN CppRet(m, b) ELSE "",
                 return_type_element |-> IF m.ret \in {"vecnum", "vecobj"} THEN CppRet(m, b) ELSE ""]]
 
+FnMd(f, b) == [metadata_type |-> "add_cpp_function", name |-> f.id,
+               include_files |-> IF f.include = "" THEN <<>> ELSE <<f.include>>,
+               arguments |-> f.params, code |-> FnCode(f, IF Backends[b].elemptr THEN "->" ELSE "."), result_name |-> f.result,
+               return_type |-> "double", return_is_collection |-> f.meaning = "pair",
+               method_object |-> IF f.style = "method" THEN "obj" ELSE "",
+               instance_object |-> IF f.style = "method" THEN Backends[b].classes.A ELSE ""]
+
 BackendNames == {"atlas", "cms_aod", "cms_miniaod"}
 CollMdType(b) == CASE b = "atlas" -> "add_atlas_event_collection_info"
                    [] b = "cms_aod" -> "add_cms_aod_event_collection_info"
@@ -165,5 +175,6 @@ UniverseRecord == [methods |-> [i \in 1..Len(Methods) |->
                    md |-> [b \in BackendNames |-> MdFor(b)],
                    collmd |-> [b \in BackendNames |-> [v \in {"fresh_Z", "replace_A"} |-> CollMd(b, v)]],
                    altHeader |-> AltHeader,
+                   fnmd |-> [b \in BackendNames |-> [i \in DOMAIN UserFns |-> FnMd(UserFns[i], b)]],
                    collClass |-> CollClass, singletons |-> Singletons]
 =============================================================================
